@@ -296,6 +296,21 @@ def tbudgetOp (args : List String) : String :=
       | none => "none"
   | _, _, _ => "bad-op"
 
+/-- `tlate`: a streaming call created under a deadline `dl=` ms from its creation whose request
+    goes out `wait=` ms later: is the deadline the peer derives later than the client's? -/
+def tlateOp (args : List String) : String :=
+  match kv args "proto", (kv args "dl").bind String.toNat?, (kv args "wait").bind String.toNat? with
+  | some proto, some dl, some wait =>
+    let dlNs : Int := (dl : Int) * 1000000
+    let sent : Int := (wait : Int) * 1000000
+    let rem := headerRemaining dlNs 0 sent
+    let pd := if proto == "connect" then peerDeadline connectEncodeTimeout connectParseTimeout rem sent
+              else peerDeadline grpcEncodeTimeout grpcParseTimeout rem sent
+    match pd with
+    | some d => if d ≤ dlNs then "not-longer" else "longer"
+    | none => "no-deadline"
+  | _, _, _ => "bad-op"
+
 /-- `rlim`: `limits=` the values of the WithReadMaxBytes options in declaration order (`nested=1`:
     the first on its own, the rest in a group inside a group), a message of `size=` bytes -/
 def rlimOp (args : List String) : String :=
@@ -423,6 +438,7 @@ def step (line : String) : String :=
   | "cflow" :: args => cflowOp args
   | "cwatch" :: args => cwatchOp args
   | "cwrite" :: args => cwriteOp args
+  | "tlate" :: args => tlateOp args
   | "tbudget" :: args => tbudgetOp args
   | "rlim" :: args => rlimOp args
   | "gen" :: args => genOp args
